@@ -23,7 +23,7 @@ ASSUMPTIONS = ["an endmarker not delivered within 6 s after the stream ended cou
 MINIMUM = {"histories": 400, "callback_invocations": 3000, "sweep_fired": 80, "connection_loss_histories": 40}
 SHARD_TIMEOUT = {"quick": 120, "thorough": 2400}
 
-ENDINGS = ["close", "close_error", "end_of_exec", "connection_loss", "last_message"]
+ENDINGS = ["close", "close_error", "end_of_exec", "end_of_exec_eoferror", "connection_loss", "last_message"]
 WHENS = ["before", "after_j", "after_close", "concurrent", "after_receive_to_end"]
 
 
@@ -45,7 +45,7 @@ def gen_history(rng, ending=None):
     n = rng.choice((0, 1, 2, 5, 12, 30))
     h = {"ending": ending, "n": n, "when": rng.choice(WHENS), "endmarker": rng.random() < 0.75, "em": rng.randrange(len(ENDMARKERS)),
          "close_in_callback": rng.random() < 0.3,
-         "drop_ref": rng.random() < 0.25, "cbside": "local" if ending in ("end_of_exec", "connection_loss") else rng.choice(("local", "remote")),
+         "drop_ref": rng.random() < 0.25, "cbside": "local" if ending in ("end_of_exec", "end_of_exec_eoferror", "connection_loss") else rng.choice(("local", "remote")),
          "j": n if rng.random() < 0.3 else rng.randint(0, n), "cut_inside_frame": rng.random() < 0.5}
     return h
 
@@ -95,6 +95,13 @@ def run_history(res: Result, lab, h, label):
     fin = None
     if ending == "end_of_exec":
         lc, rc, fin = lab.pair_remote_exec()
+        S, R = rc, lc
+    elif ending == "end_of_exec_eoferror":
+        # the remote execution ends with an uncaught EOFError of its own (it read past the end of something)
+        def _raise_eof(channel):
+            raise EOFError("body ran into the end of something")
+
+        lc, rc, fin = lab.pair_remote_exec(at_end=_raise_eof)
         S, R = rc, lc
     else:
         lc, rc = lab.pair_newchannel_local() if hid % 2 else lab.pair_newchannel_remote()
